@@ -224,6 +224,13 @@ def transform(rng, kind, d=2, n_align=None):
         h[:d, d] = rng.uniform(-5, 5, d)
         h[d, :d] = rng.uniform(-0.002, 0.002, d)  # mildly projective, denominators stay near 1 on our points
         return mt.Homogeneous(h)
+    if kind == "WeaklyProjectiveHomogeneous":
+        # an almost-affine homography (a slightly tilted camera): the homogeneous coordinate w differs from 1 by 1e-6 ... 1e-4
+        h = np.eye(d + 1)
+        h[:d, :d] = well_conditioned(rng, d)
+        h[:d, d] = rng.uniform(-5, 5, d)
+        h[d, :d] = rng.uniform(0.5, 3.0, d) * 10.0 ** rng.uniform(-6.5, -5.0) * rng.choice([-1, 1], d)
+        return mt.Homogeneous(h)
     if kind == "NonSquareHomogeneous":
         # a camera-like projection 3D -> 2D or an embedding 2D -> 3D: (n_dims_output + 1) x (n_dims + 1)
         dout = 2 if d == 3 else 3
